@@ -511,6 +511,13 @@ impl Document {
             }
         }
 
+        // The text may end while an initialism is still open: its first token
+        // must still cover the tokens queued for removal.
+        if let Some(start) = initialism_start {
+            let end = self.tokens[cursor - 2].span.end;
+            self.tokens[start].span.end = end;
+        }
+
         self.tokens.remove_indices(to_remove);
     }
 
